@@ -55,6 +55,10 @@ def check_export(nodes_edges, graph, compound):
         if compound:
             parents = [n for n in nodes if "parent" not in n]
             for n in graph.nodes:
+                # (a subquery owner may be labelled by another alias of the textually same subquery: only tables/paths and
+                # unresolved columns have a canonical owner label)
+                if n.parent is not None and type(n.parent).__name__ == "SubQuery":
+                    continue
                 want = str(n.parent) if n.parent is not None else "<unknown>"
                 if not any(eqs(p["id"], want) for p in parents):
                     return ("a column's owner is not exported as compound parent", want)
